@@ -901,6 +901,7 @@ def guard(F, rep):
                    line_of(fresh_rec) if fresh_rec else fn["sp"])
     rep.floor("GUARD", "functions recursing over type components", n, 8)
     guard_discipline(F, rep, fns, calls)
+    worklists_are_guarded(F, rep, fns)
     # unfolding the type *graph* (nodes shared through TyID) into an owned *tree*: the visited map stops cycles but not
     # sharing, so the tree of `a30` in `a0 := (1, 1); a1 := (a0, a0); ..` has 2^31 leaves unless depth or size is bounded
     for p, fn in sorted(fns.items()):
@@ -919,6 +920,37 @@ def guard(F, rep):
     fr = F.fn("sylt_compiler::dependency::order::recurse")
     t = pp(fn_body(fr))
     rep.ob("GUARD", "dependency::recurse", "inserted.entry(" in t and "State::Inserting" in t, "the dependency ordering marks nodes before recursing", fr["sp"])
+
+
+def worklists_are_guarded(F, rep, fns):
+    """.. the same walk written as a loop over a work list: a loop that pops a type node off a vector and pushes the node's
+    components back onto it ends on a type that contains itself only if it keeps the set of nodes it has met and skips those"""
+    n = 0
+    for p, fn in sorted(fns.items()):
+        w_ = 0
+        for lp in [x for x in nodes(fn_body(fn)) if x.get("k") in ("Loop", "While", "ForLoop")]:
+            pops = [c for c in nodes(lp, "MethodCall") if c["m"] == "pop" and "Vec<" in (peel(c["recv"]).get("ty") or "") and "TyID" in (peel(c["recv"]).get("ty") or "") + "usize" * ("Vec<usize>" in (peel(c["recv"]).get("ty") or ""))]
+            for pc in pops:
+                wl = peel(pc["recv"]).get("hid")
+                if wl is None:
+                    continue
+                grows = [c for c in nodes(lp, "MethodCall") if c["m"] in ("push", "extend", "append", "extend_from_slice", "insert")
+                         and peel(c["recv"]).get("hid") == wl]
+                if not grows:
+                    continue
+                n += 1
+                w_ += 1
+                k_ = w_
+                order = [id(x) for x in nodes(lp)]
+                marks = [c for c in nodes(lp, "MethodCall") if c["m"] in ("insert", "entry") and
+                         re.search(r"(HashMap|HashSet|BTreeMap|BTreeSet)<", peel(c["recv"]).get("ty") or "")]
+                first = bool(marks) and min(order.index(id(c)) for c in marks) < min(order.index(id(c)) for c in grows)
+                rep.ob("GUARD", "%s|worklist#%d|skips-what-it-has-met" % (last(p), k_), first,
+                       "the work list of TypeChecker::%s enters every node into a set and goes into the components of new nodes only" % last(p) if first else
+                       "TypeChecker::%s pops type nodes off a work list and pushes their components back without a record of the nodes it has "
+                       "met: unification performs no occurs check, so on a type that contains itself (`fn g do g(g) end`) the loop never "
+                       "runs out of work - the compiler hangs without an error" % last(p), line_of(lp))
+    rep.floor("GUARD", "work lists over type components", n, 3)
 
 
 def guard_discipline(F, rep, fns=None, calls=None):
